@@ -75,7 +75,7 @@ let run (toks : string list) : string =
   | "sk" :: rest ->
     let tbl = ref [] in
     let ops = L.filter (fun t -> if String.length t > 4 && String.sub t 0 4 = "tbl=" then (tbl := parse_table (String.sub t 4 (String.length t - 4)); false)
-                         else not ((String.length t > 4 && String.sub t 0 4 = "pin=") || (String.length t > 5 && String.sub t 0 5 = "nacc="))) rest in
+                         else not ((String.length t > 4 && (String.sub t 0 4 = "pin=" || String.sub t 0 4 = "fsz=")) || (String.length t > 5 && String.sub t 0 5 = "nacc="))) rest in
     (* the pairing database always holds the accessory's own entity (name = device id, public and private key) *)
     let acc_name = ascii0 "\001accessory" in
     let w = ref (let e = Hap.empty_world !tbl in { e with Hap.store = [(acc_name, n_of_int 1000000)] }) in
